@@ -17,6 +17,7 @@ import (
 	dogfoodtypes "github.com/ExocoreNetwork/exocore/x/dogfood/types"
 	operatortypes "github.com/ExocoreNetwork/exocore/x/operator/types"
 
+	"verif/evm"
 	"verif/sim"
 )
 
@@ -307,6 +308,18 @@ func (w *World) RunLedger(o LedgerOpts) {
 		}
 	}
 	slashN := 0
+	wInvalid := 0
+	nTok := 0
+	useProxy := false
+	if o.Profile == "invalid" {
+		wInvalid = 420
+		useProxy = r.Intn(5) < 2
+	}
+	if useProxy {
+		if !w.UseProxyGateway(evm.ProxyRuntime(), evm.Deploy(evm.ProxyRuntime())) {
+			useProxy = false
+		}
+	}
 	wPrice, wAvsOpt, wParam := 0, 0, 0
 	if o.Profile == "queues" {
 		wParam = 20
@@ -343,7 +356,12 @@ func (w *World) RunLedger(o LedgerOpts) {
 	}
 	for len(w.Steps) < o.Steps && !w.Dead {
 		// weights are relative; block advancement keeps a fixed share (about one step in seven) in every profile
-		sum := 110 + 60 + 150 + wUndel + 40 + 40 + 25 + 25 + (wOpt + 10) + wOpt + wKeys + wSlash + 35 + wParam + wPrice + wAvsOpt + 10 + wEvid
+		if useProxy {
+			// what the gateway contract does after forwarding the call: mostly return, sometimes revert at top level,
+			// burn all gas, or write its own storage
+			w.ProxyMode = []byte{0, 0, 0, 0, 0, 1, 1, 2, 3}[r.Intn(9)]
+		}
+		sum := wInvalid + 110 + 60 + 150 + wUndel + 40 + 40 + 25 + 25 + (wOpt + 10) + wOpt + wKeys + wSlash + 35 + wParam + wPrice + wAvsOpt + 10 + wEvid
 		x := r.Intn(sum + sum/6)
 		wt := func(n int) bool { x -= n; return x < 0 }
 		l := w.Last.Ledger
@@ -367,6 +385,13 @@ func (w *World) RunLedger(o LedgerOpts) {
 			}
 		}
 		switch {
+		case wt(wInvalid): // an operation that is invalid in exactly one way
+			if r.Intn(12) == 0 {
+				nTok++
+				w.RegisterToken(nTok) // a valid registration (under the proxy it may be reverted at top level)
+			} else {
+				w.InvalidOp()
+			}
 		case wt(110): // deposit
 			a := w.Assets[r.Intn(len(w.Assets))]
 			if s := w.pickStaker(a.Lz, false); s != nil {
